@@ -204,11 +204,12 @@ loop:
 }
 
 type c16Pool struct {
-	dir      string
-	children []*c16Child
-	mu       sync.Mutex
-	cache    map[string]c16Result
-	seq      int
+	dir        string
+	children   []*c16Child
+	mu         sync.Mutex
+	cache      map[string]c16Result
+	seq        int
+	flakyHangs int
 }
 
 type c16Result struct {
@@ -431,6 +432,18 @@ func (p *c16Pool) evalCase(worker int, kind int, toks [][]byte, orch bool) c16Re
 		os.WriteFile(yamlPath, []byte(c.Render()), 0o644)
 		os.WriteFile(recPath, []byte(strings.Join(c16Records(c), "\n")+"\n"), 0o644)
 		v := ch.eval(yamlPath, recPath, orch)
+		if v.Detail == "hang" {
+			// a configuration that makes loading / construction hang does so every time; a stall of the
+			// pipeline goroutines under machine load does not (and is not a matter of the configuration)
+			v2 := ch.eval(yamlPath, recPath, orch)
+			if v2.Detail != "hang" {
+				p.mu.Lock()
+				p.flakyHangs++
+				p.mu.Unlock()
+				fmt.Fprintf(os.Stderr, "c16: a hang in stage %s did not repeat on a fresh child process (ignored)\n", v.Stage)
+				v = v2
+			}
+		}
 		os.Remove(yamlPath)
 		os.Remove(recPath)
 		outs = append(outs, v.String())
